@@ -79,13 +79,16 @@ type BlockPipeline struct {
 	// submitSlot serialises sequence allocation with the enqueue, so that a
 	// submission which gives up never consumes a sequence number
 	submitSlot chan struct{}
-	ctx        context.Context
-	cancel     context.CancelFunc
-	started    atomic.Bool
-	stopped    atomic.Bool
-	wg         sync.WaitGroup
-	mu         sync.Mutex   // protects Start/Stop
-	submitMu   sync.RWMutex // protects Submit against concurrent Stop
+	// outstanding counts items accepted by Submit that the apply stage has not
+	// finished with yet, wherever in the pipeline they currently are
+	outstanding atomic.Int64
+	ctx         context.Context
+	cancel      context.CancelFunc
+	started     atomic.Bool
+	stopped     atomic.Bool
+	wg          sync.WaitGroup
+	mu          sync.Mutex   // protects Start/Stop
+	submitMu    sync.RWMutex // protects Submit against concurrent Stop
 }
 
 // NewBlockPipeline creates a new BlockPipeline using functional options.
@@ -190,6 +193,9 @@ func (p *BlockPipeline) Start(ctx context.Context) error {
 		bufSize, // Deprecated: pendingQueueSize is no longer used (kept for API compatibility)
 	)
 	p.applyRunner.SetMetrics(p.metrics)
+	p.applyRunner.SetProcessedFunc(func(n int) {
+		p.outstanding.Add(-int64(n))
+	})
 
 	// Start all stages
 	// Note: p.ctx is derived from the passed ctx via context.WithCancel above
@@ -244,14 +250,18 @@ func (p *BlockPipeline) Submit(ctx context.Context, blockType uint, rawCbor []by
 
 	item := NewBlockItem(blockType, rawCbor, tip, p.sequenceCounter.Load())
 
+	// Count the item before it becomes visible to the workers
+	p.outstanding.Add(1)
 	select {
 	case p.submitChan <- item:
 		p.sequenceCounter.Add(1)
 		p.metrics.RecordSubmit()
 		return nil
 	case <-ctx.Done():
+		p.outstanding.Add(-1)
 		return ctx.Err()
 	case <-p.ctx.Done():
+		p.outstanding.Add(-1)
 		return ErrPipelineStopped
 	}
 }
@@ -333,12 +343,9 @@ func (p *BlockPipeline) PendingCount() int {
 	if !p.started.Load() {
 		return 0
 	}
-	channelDepth := len(p.submitChan) + len(p.decodedChan) + len(p.validatedChan)
-	applyPending := 0
-	if p.applyStage != nil {
-		applyPending = p.applyStage.PendingCount()
-	}
-	return channelDepth + applyPending
+	// Items held by a decode or validate worker are in no channel and not yet
+	// in the apply stage, so count accepted-but-unfinished items directly
+	return int(p.outstanding.Load())
 }
 
 // WaitForDrain blocks until all currently submitted items have been processed
